@@ -401,6 +401,17 @@ universe `nodes` that failed and passes the guard -/
 def Forest.recoveryFiles (f : Forest) (fuel : Nat) (nodes ks : List Nat) : List Nat :=
   nodes.filter (fun n => f.failedNodes fuel ks n && f.writesRecovery fuel n)
 
+/-- with the caller's choice `raise_run_exceptions` (`raises n`: how node `n` was asked to run — children are
+always run by their parent with the default `True`, only the outermost call is the user's): the guard of
+`_run_finally` is `failed ∧ raise_run_exceptions ∧ recovery is not None ∧ graph_root is self` -/
+def Forest.recoveryFilesR (f : Forest) (raises : Nat → Bool) (fuel : Nat) (nodes ks : List Nat) : List Nat :=
+  nodes.filter (fun n => f.failedNodes fuel ks n && (raises n && f.writesRecovery fuel n))
+
+/-- a graph that is resumed IN PLACE (no file, no load — e.g. after a failed run whose exception the
+caller suppressed): the live objects keep what a load may lose -/
+def RCfg.inPlace (rc : RCfg) : RCfg :=
+  { rc with silentRelink := true, faithfulOrder := true, keepCompositeCache := true }
+
 /-- the directory a checkpoint of child `c` goes to -/
 def Forest.checkpointDir (f : Forest) (fuel : Nat) (c : Nat) : Nat := f.root fuel c
 
